@@ -35,7 +35,7 @@ struct xv_xr_s {
 /* the two tracked rows describe the same table */
 #define XR_CONSISTENT ((xv_xr.rk_live && xv_xr.rk_fd == xv_rf) ==> (xv_xr.rf_live && xv_xr.rf_id == xv_rk && xv_xr.rf_event == xv_xr.rk_event)) && \
                       ((xv_xr.rf_live && xv_xr.rf_id == xv_rk) ==> (xv_xr.rk_live && xv_xr.rk_fd == xv_rf && xv_xr.rk_event == xv_xr.rf_event))
-#define XR_RANGE(slack) (xv_xr.regs >= 0 && xv_xr.regs < XV_TD_CNT_MAX - (slack) && xv_xr.adds < (unsigned)XV_TD_CNT_MAX && xv_xr.dels < (unsigned)XV_TD_CNT_MAX && (XR_CONSISTENT) && \
+#define XR_RANGE(slack) (xv_xr.regs >= 0 && xv_xr.regs < XV_TD_CNT_MAX - (slack) && xv_xr.adds < (unsigned)(XV_TD_CNT_MAX - (slack)) && xv_xr.dels < (unsigned)(XV_TD_CNT_MAX - (slack)) && (XR_CONSISTENT) && \
                          (xv_xr.rk_live ==> (xv_xr.regs > 0 && xv_rk >= 0 && xv_xr.rk_fd >= 0)) && (xv_xr.rf_live ==> (xv_xr.regs > 0 && xv_rf >= 0 && xv_xr.rf_id >= 0)))
 /* registration `id` is live, of descriptor `fd`, for `ev` -- as far as the tracked rows can tell (they can tell for every id/fd) */
 #define XR_IS(id, fd, ev) (((id) == xv_rk ==> (xv_xr.rk_live && xv_xr.rk_fd == (fd) && xv_xr.rk_event == (ev))) && \
